@@ -74,7 +74,7 @@ Section Run.
     match hello_name lower is_space (l_cfg c) (l_ip c) (x_idna (l_envx c)) with
     | Some nm =>
         subject_qualifies is_space nm &&
-        match load_from_storage (x_storage (l_envx c)) nm with
+        match load_from_storage (x_storage (l_envx c)) (x_broken (l_envx c)) nm with
         | Some x => sd_fresh x && str_eqb (c_hash (sd_cert x)) h
         | None => false
         end
@@ -110,7 +110,8 @@ Section Run.
             | Some m =>
                 (* exact before wildcard, fewer wildcard labels first; local IP when there is no SNI;
                    among the certificates listed under that name a supported unexpired one *)
-                listed_under s h m && (negb (existsb good (idx s m)) || good h)
+                listed_under s h m && (negb (existsb good (idx s m)) || good h) &&
+                (negb (existsb (supf c) (idx s m)) || supf c h)       (* else a supported (expired) one *)
             | None =>
                 (* a certificate that does not cover the name: only the default name's (no SNI), the
                    fallback name's, or the one just loaded from storage when the cache is almost full *)
@@ -198,9 +199,9 @@ Definition get_case : dec case :=
      cap <- get_nat ;; s <- get_state ;; at_ <- get_list (get_pair get_str get_attr) ;;
      d <- get_str ;; f <- get_str ;; sni <- get_str ;; ip <- get_str ;;
      pol <- get_policy ;; idna <- get_opt get_str ;; st <- get_list get_stored ;;
-     v <- get_opt get_str ;; o <- get_obs ;; post <- get_state ;;
+     br <- get_list get_str ;; v <- get_opt get_str ;; o <- get_obs ;; post <- get_state ;;
      ret (KLookup (fst t) (snd t)
-            (LCase cap s at_ (Config d f) sni ip pol (EnvX idna (map fst st) v) (map snd st) o post))
+            (LCase cap s at_ (Config d f) sni ip pol (EnvX idna (map fst st) br v) (map snd st) o post))
    else if k =? 1 then
      lt <- get_list (get_pair get_n get_n) ;; a <- get_str ;; b <- get_str ;; o <- get_bool ;;
      ret (KMatch lt a b o)
